@@ -2,7 +2,7 @@
    fails to compile if Props/C06.v is weakened, renamed or given other hypotheses. *)
 From Coq Require Import SpecFloat.
 Require Import Base Value Float PrintOptions Printer ParseOptions Utf8 Reader Scan Num NumberOps Parser.
-Require Import RelFramework IoProofs RoundtripProofs TextProofs SimFramework InterruptProofs CrossProofs SourcesAgree.
+Require Import RelFramework IoProofs RoundtripProofs TextProofs SimFramework InterruptProofs CrossProofs SourcesAgree StrSliceProofs Utf8StrProofs ValidTextProofs.
 Require Import Lexpr.Props.C06.
 Local Open Scope nat_scope.
 
@@ -135,3 +135,24 @@ Check (C06_str_slice_nonvacuous :
   (exists c l cl, from_trait default_ro (fun _ => true) true dec_to_f64 SrcSlice (bytes_events E) = PErr (XErr (ESyntax c l cl))) /\
   from_trait default_ro (fun _ => true) true dec_to_f64 SrcSlice (bytes_events bad) =
     PErr (XErr (ESyntax InvalidUnicodeCodePoint 1 4))).
+
+Check (C06_str_slice_agree_on_text :
+  forall W, utf8_valid W = true -> forall ro alpha fast std_parse,
+  from_trait ro alpha fast std_parse SrcStr (bytes_events W) = from_trait ro alpha fast std_parse SrcSlice (bytes_events W) /\
+  datum_from_trait ro alpha fast std_parse SrcStr (bytes_events W) = datum_from_trait ro alpha fast std_parse SrcSlice (bytes_events W)).
+
+Check (C06_str_slice_every_call_on_text :
+  forall W, utf8_valid W = true -> forall ro alpha fast std_parse fuel s1 s2,
+  sprel s1 s2 -> okr W (rd s1) ->
+  fst (next_value ro alpha fast std_parse fuel s1) = fst (next_value ro alpha fast std_parse fuel s2) /\
+  sprel (snd (next_value ro alpha fast std_parse fuel s1)) (snd (next_value ro alpha fast std_parse fuel s2))).
+
+Check (C06_three_sources_agree_on_text :
+  forall W, utf8_valid W = true -> forall ro alpha fast std_parse,
+  from_trait ro alpha fast std_parse SrcStr (bytes_events W) = from_trait ro alpha fast std_parse SrcSlice (bytes_events W) /\
+  match from_trait ro alpha fast std_parse SrcSlice (bytes_events W), from_trait ro alpha fast std_parse SrcIo (bytes_events W) with
+  | POk a, POk b => a = b
+  | PErr (XErr (ESyntax c1 _ _)), PErr (XErr (ESyntax c2 _ _)) => c1 = c2
+  | PErr (XErr (EIo a)), PErr (XErr (EIo b)) => a = b
+  | _, _ => False
+  end).
